@@ -92,7 +92,7 @@ where
         assume(old <= FCAP);
         OUT_FILE_LEN = old;
         OUT_DATA = [0xEE; FCAP];
-        crate::cover!(old > 64, "destination pre-exists with longer contents");
+        crate::cover!(old > 50, "destination pre-exists with longer contents");
     }
     let r = x.store("out");
     assert!(r.is_ok(), "C08: store succeeds on a writable file");
